@@ -253,3 +253,48 @@ class PduEval:
             return "raise", exc.value, (oids, vals)
         except Unevaluable as exc:
             return "uneval", str(exc), (oids, vals)
+
+
+def quietly_caught_classes(ctx: Ctx) -> List[Tuple[ClassInfo, str]]:
+    """
+    Exception classes that some handler around a fetch of the walk loop turns into a normal end of the walk
+    (handler that does not re-raise on every path): FaultySNMPImplementation in lenient mode, the noSuchName class.
+    """
+    from ..engine.patterns import enclosing_tries_of
+    from .c01 import all_paths_reraise
+    from .walkmodel import WalkModel
+
+    wm = WalkModel(ctx)
+    w = wm.walk
+    out: List[Tuple[ClassInfo, str]] = []
+    for call in wm.fetch_calls:
+        for tr, part in enclosing_tries_of(call, w):
+            if part != "body":
+                continue
+            for h in tr.handlers:
+                if h.type is None or all_paths_reraise(h):
+                    continue
+                for t in (h.type.elts if isinstance(h.type, ast.Tuple) else [h.type]):
+                    cls = ctx.r.resolve_class(w.module, t)
+                    if cls is not None and all(cls.key != c.key for c, _ in out):
+                        out.append((cls, w.site(h)))
+    return out
+
+
+def check_not_quietly_caught(ctx: Ctx, rep: Any, rule: str, classes: List[ClassInfo], what: str, allowed: Optional[List[ClassInfo]] = None) -> None:
+    """
+    None of *classes* (nor their subclasses' bases) derives from a class the walk loop swallows: otherwise the error
+    they stand for ends a walk silently with the data gathered so far instead of reaching the caller.
+    """
+    quiet = quietly_caught_classes(ctx)
+    allowed_keys = {c.key for c in (allowed or [])}
+    for cls in classes:
+        swallowed = [(q, site) for q, site in quiet if ctx.r.is_subclass(cls, q) and q.key not in allowed_keys and cls.key not in allowed_keys]
+        rep.check(
+            not swallowed,
+            rule,
+            f"{cls.module.path}:{cls.node.lineno} ({cls.name})",
+            f"{cls.name} ({what}) is not a subclass of an exception the walk loop turns into a normal end of the walk",
+            "; ".join(f"derives from {q.name}, caught quietly at {site}" for q, site in swallowed),
+            key=f"{cls.key}|quietly-caught",
+        )
